@@ -121,7 +121,9 @@ def handleLoess (ins outs : List J) : Verdict :=
         let rs := cands.filterMap fun (q, s0) => loessAt xs ys deg q s0 x
         match g with
         | .fin v =>
-          if rs.isEmpty then ("loess-skip", true, "")
+          -- a candidate window the model cannot judge (ill-conditioned local fit) may be the one the
+          -- code used: no verdict for this query
+          if rs.isEmpty || rs.length < cands.length then ("loess-skip", true, "")
           else ("loess-value", rs.any (fun (m, t) => ratAbs (v - m) ≤ t), s!"x={ratStr x} go={ratStr v} model={ratStr (rs.head!).1} tol={ratStr (rs.head!).2}")
         | _ => ("loess-value", rs.isEmpty, s!"x={ratStr x} go={g.str}")
       let nskip := (per.filter (·.1 == "loess-skip")).length
